@@ -339,11 +339,25 @@ func RunLive(c *corr.Ctx, lc *LiveCase) {
 				Detail: fmt.Sprintf("frame header announces %d bytes, %d written", e.Declared, e.Written)})
 		}
 	}
-	// start-up traffic (firewall-opening datagrams, first reports) obeys the limit too
-	for _, e := range l.Tap.WaitLen(0, 0) {
+	// start-up traffic: over UDP the client (before PLAY) and a recording session (at RECORD) open
+	// the firewall with one empty RTP packet and one empty receiver report; they obey the limit too
+	// and their sizes are compared with the model
+	startup := l.Tap.WaitLen(0, 0)
+	var punchRTP, punchRTCP []int
+	for _, e := range startup {
 		checkEvent(e, nil)
 		consumed++
 		c.Dist("live/startup-packet")
+		if isRTCP(e) {
+			punchRTCP = append(punchRTCP, e.Written)
+		} else {
+			punchRTP = append(punchRTP, e.Written)
+		}
+	}
+	punches := scn.Proto == "udp" && (scn.Entity == "clientplay" || scn.Entity == "clientaxisplay" || scn.Entity == "sessionrec")
+	if punches || len(startup) > 0 {
+		cs.Ops = append(cs.Ops, fmt.Sprintf("size punch %d", scn.ctx()))
+		cs.Impl = append(cs.Impl, fmt.Sprintf("%s %s", intsJoin(punchRTP), intsJoin(punchRTCP)))
 	}
 	seq := uint16(1)
 	for _, op := range lc.Ops {
@@ -612,7 +626,7 @@ func Run(c *corr.Ctx) {
 		}
 		return
 	}
-	for _, m := range append(maxes, 0, 64, 100+c.Rng.IntN(1300)) {
+	for _, m := range append(maxes, 0, 26, 33, 64, 100+c.Rng.IntN(1300), 100+c.Rng.IntN(1300), 1400+c.Rng.IntN(72)) {
 		for _, scn := range allScenarios(m) {
 			RunLive(c, &LiveCase{Scn: scn, Ops: genOps(c.Rng, scn, 16)})
 		}
